@@ -26,7 +26,7 @@ def _formats_for(prog, n):
     return [FORMATS[(h + i * 3) % len(FORMATS)] for i in range(n)], h
 
 
-def check_vector(v, nformats=2, variant="canon"):
+def check_vector(v, nformats=2, variant0="canon"):
     prog = tr.annotate_replace_counters(v["prog"])
     obs = v["obs"]
     if len(prog) < 2:
@@ -37,6 +37,11 @@ def check_vector(v, nformats=2, variant="canon"):
     for fmt in dict.fromkeys(fmts):
         pairs = tk.SOURCES[fmt]["pairs"]
         pair = pairs[h % len(pairs)]
+        # every other program without a write reads the file whose fields are spelt non-canonically (leading zeros, '+', the '.' placeholder):
+        # what lazy and eager tables show must agree there too (the written bytes of untouched non-canonical fields are C04's subject)
+        variant = variant0
+        if variant0 == "canon" and (h >> 5) % 2 == 0 and not any(p["op"] == "write" for p in prog):
+            variant = "noncanon"
         src = tr.Source(fmt, variant)
         K = None
         if prog[0]["op"] == "read_chunks":
@@ -53,8 +58,8 @@ def check_vector(v, nformats=2, variant="canon"):
             n += 1
         L, Ee = res[True], res[False]
         nsteps = len(prog) - 1
-        tags = {"format": fmt, "op": prog[-1]["op"], "chunked": prog[0]["op"] == "read_chunks"}
-        case = {"format": fmt, "pair": pair, "prog": prog}
+        tags = {"format": fmt, "op": prog[-1]["op"], "chunked": prog[0]["op"] == "read_chunks", "variant": variant}
+        case = {"format": fmt, "pair": pair, "prog": prog, "variant": variant}
         # an earlier step failed in some mode: that prefix is judged by its own vector
         if any(o[0] == "err" for o in L[:nsteps - 1]) or any(o[0] == "err" for o in Ee[:nsteps - 1]) \
                 or len(L) < nsteps or len(Ee) < nsteps:
